@@ -1,8 +1,10 @@
 package props
 
 import (
+	"context"
 	"errors"
 	"fmt"
+	"io"
 
 	"github.com/paulmach/osm"
 
@@ -84,6 +86,9 @@ var c06Classes = []c06Class{
 }
 
 var errInjected = errors.New("verif: injected I/O error")
+
+// errInjectedEOF is an I/O failure that wraps io.EOF (and errInjected, for classification).
+var errInjectedEOF = fmt.Errorf("verif: connection lost: %w (%w)", io.EOF, errInjected)
 
 func c06SmallFile(seed uint64, nblocks int) *pbfw.File {
 	r := gen.New(seed, "c06small")
@@ -378,7 +383,11 @@ func c06Exec(c fw.Case) *fw.Result {
 		for n := int64(1); n <= total; n++ {
 			rd := mon.NewReader(data)
 			rd.Chunk = int(c.Int("chunk"))
-			rd.FailAt, rd.FailErr = n, errInjected
+			// the reader's error comes in several flavours; only the bare io.EOF value means
+			// "end of stream", an error that wraps it (a lost connection) is a failure
+			flavour := int(n+c.Int("procs")/2) % len(c06IOErrs)
+			injected := c06IOErrs[flavour]
+			rd.FailAt, rd.FailErr = n, injected
 			sr := pbfScan(rd, int(c.Int("procs")), false, nil, nil)
 			served := rd.Bytes()
 			nIntact := 0
@@ -394,9 +403,12 @@ func c06Exec(c fw.Case) *fw.Result {
 			}
 			if sr.Err == nil {
 				// the last call of a clean scan returns io.EOF at a block boundary: an
-				// error there replaces EOF and must be reported as well
-				res.Violatef(key+"/error-lost", "I/O error injected at Read call %d of %d (after %d bytes, %s) but Err() = %v", n, total, served, c06CutClass(f, lay, served), sr.Err)
-			} else if !errors.Is(sr.Err, errInjected) {
+				// error there replaces EOF and must be reported as well (for an error that
+				// wraps io.EOF exactly on a block boundary either answer is defensible)
+				if !(errors.Is(injected, io.EOF) && lay.Boundaries()[served]) {
+					res.Violatef(key+"/error-lost/"+c06IOErrNames[flavour], "I/O error %q injected at Read call %d of %d (after %d bytes, %s) but Err() = %v", injected, n, total, served, c06CutClass(f, lay, served), sr.Err)
+				}
+			} else if !errors.Is(sr.Err, injected) {
 				res.Add("io_error_reported_but_not_identifiable_with_errors_is", 1)
 			}
 			res.Event(int64(len(sr.Objs)) + 1)
@@ -407,6 +419,15 @@ func c06Exec(c fw.Case) *fw.Result {
 		res.Sample = map[string]any{"read_calls": total, "chunk": c.Int("chunk"), "file_bytes": len(data)}
 	}
 	return res
+}
+
+var c06IOErrNames = []string{"plain", "wraps-eof", "unexpected-eof", "wraps-canceled", "closed-pipe"}
+var c06IOErrs = []error{
+	errInjected,
+	fmt.Errorf("verif: connection lost: %w", io.EOF),
+	io.ErrUnexpectedEOF,
+	fmt.Errorf("verif: transport: %w", context.Canceled),
+	io.ErrClosedPipe,
 }
 
 func c06Cases(tier string, seed uint64) []fw.Case {
